@@ -13,7 +13,9 @@
 //	hasany <s> <id>…         WatchSet.HasAny         -> any=0|1
 //	wait <s> <call> <settle> <ctx> <horizon> <id>@<t>…
 //	     one complete Wait scenario on relative virtual time: events close channel id at t,
-//	     ctx = none | d<t> (deadline at t) | c<t> (cancel() at t), Wait(ctx, settle) is called
+//	     ctx = none | d<t> (deadline at t) | c<t> (cancel() at t) | D<t> / C<t> (the same through
+//	     context.WithTimeoutCause / WithCancelCause with a custom cause: ctx.Err() is still
+//	     DeadlineExceeded / Canceled, context.Cause(ctx) is not), Wait(ctx, settle) is called
 //	     at <call>, everything is observed at <horizon>.
 //	     -> ret=<sorted ids> err=nil|deadline|canceled t=<return instant> mem=<members via Has>
 //	     -> blocked mem=…   (no return by the horizon; the harness then cancels the context)
@@ -167,15 +169,20 @@ func (e *eng) Op(f []string, line string, out *hx.Out) {
 
 type ev struct{ id, t int }
 
-func parseCtx(s string) (kind string, t int) {
+func parseCtx(s string) (kind string, t int, cause bool) {
 	if s == "none" {
-		return "", -1
+		return "", -1, false
 	}
-	if s[0] == 'd' {
-		return "deadline", atoi(s[1:])
+	cause = s[0] == 'D' || s[0] == 'C'
+	if s[0] == 'd' || s[0] == 'D' {
+		return "deadline", atoi(s[1:]), cause
 	}
-	return "canceled", atoi(s[1:])
+	return "canceled", atoi(s[1:]), cause
 }
+
+var errShutdown = errors.New("shutting down")
+var errTooSlow = errors.New("too slow")
+
 func parseEvs(fs []string) []ev {
 	var evs []ev
 	for _, a := range fs {
@@ -185,13 +192,15 @@ func parseEvs(fs []string) []ev {
 	return evs
 }
 
+// errName: Wait must report the context's error, i.e. exactly what ctx.Err() returns (the
+// sentinel values themselves, not a wrapped error and not context.Cause(ctx)).
 func errName(err error) string {
 	switch {
 	case err == nil:
 		return "nil"
-	case errors.Is(err, context.DeadlineExceeded):
+	case err == context.DeadlineExceeded:
 		return "deadline"
-	case errors.Is(err, context.Canceled):
+	case err == context.Canceled:
 		return "canceled"
 	}
 	return "other"
@@ -207,7 +216,7 @@ type result struct {
 func (e *eng) wait(f []string, out *hx.Out) {
 	ws := e.set(atoi(f[1]))
 	call, settle, horizon := atoi(f[2]), atoi(f[3]), atoi(f[5])
-	kind, ctxT := parseCtx(f[4])
+	kind, ctxT, cause := parseCtx(f[4])
 	evs := parseEvs(f[6:])
 	for _, v := range evs {
 		e.ch(v.id)
@@ -238,9 +247,15 @@ func (e *eng) wait(f []string, out *hx.Out) {
 	until := func(t int) { time.Sleep(time.Until(start.Add(time.Duration(t) * unit))) }
 	var ctx context.Context
 	var cancel context.CancelFunc
-	if kind == "deadline" {
+	switch {
+	case kind == "deadline" && cause:
+		ctx, cancel = context.WithTimeoutCause(context.Background(), time.Duration(ctxT)*unit, errTooSlow)
+	case kind == "deadline":
 		ctx, cancel = context.WithTimeout(context.Background(), time.Duration(ctxT)*unit)
-	} else {
+	case cause:
+		c, cc := context.WithCancelCause(context.Background())
+		ctx, cancel = c, func() { cc(errShutdown) }
+	default:
 		ctx, cancel = context.WithCancel(context.Background())
 	}
 	defer cancel()
@@ -323,6 +338,10 @@ func (e *eng) wait(f []string, out *hx.Out) {
 	after := e.members(ws)
 	en := errName(r.err)
 	bads := sc.clauses(ret, en, r.rt, after)
+	if r.err != nil && (r.err != ctx.Err() || !(errors.Is(r.err, context.Canceled) || errors.Is(r.err, context.DeadlineExceeded))) {
+		// a non-nil error is the context's error: identical to ctx.Err() (stable once non-nil)
+		bads = append(bads, "ctxerr")
+	}
 	if foreign {
 		bads = append(bads, "foreign")
 	}
@@ -760,6 +779,9 @@ func genWait(r *hx.Rand, g *gstate, nsets, nids int, big bool, out *hx.Out) {
 		} else {
 			kind, ctx = "canceled", fmt.Sprintf("c%d", ctxT)
 		}
+		if r.Chance(50) { // context with a custom cause
+			ctx = strings.ToUpper(ctx[:1]) + ctx[1:]
+		}
 	}
 	horizon := call + settle + 3
 	for _, v := range evs {
@@ -793,6 +815,9 @@ func genWait(r *hx.Rand, g *gstate, nsets, nids int, big bool, out *hx.Out) {
 			kind, ctx = "deadline", fmt.Sprintf("d%d", ctxT)
 		} else {
 			kind, ctx = "canceled", fmt.Sprintf("c%d", ctxT)
+		}
+		if r.Chance(50) {
+			ctx = strings.ToUpper(ctx[:1]) + ctx[1:]
 		}
 		sc.hasCtx, sc.kind, sc.ecx = true, kind, max(call, ctxT)
 		horizon = max(horizon, ctxT+3)
